@@ -30,6 +30,7 @@ type Opt struct {
 	TopCall      int // percentage: a top-level process with free names is just a call
 	Reuse        int // percentage: a cut re-binds the name of an argument its call consumes (x <- new f(x))
 	Vary         int // percentage: a written type uses the unfolding of a name instead of the name
+	Capture      int // percentage: the context is captured by a server that the client splits and uses twice
 }
 
 func DefaultOpt(r *rand.Rand) Opt {
@@ -96,6 +97,9 @@ func tryGenerate(r *rand.Rand, o Opt) (p *Program, ok bool) {
 	}
 	if o.Vary == 0 {
 		o.Vary = 20
+	}
+	if o.Capture == 0 {
+		o.Capture = 8
 	}
 	g := &G{R: r, O: o, Env: Env{}, P: &Program{Feat: map[string]int{}}, mk: map[string]string{}, cons: map[string]string{}, lib: map[string]bool{}, budget: 1500}
 	defer func() {
@@ -461,6 +465,9 @@ func (g *G) gen(ctx []Var, A *Ty, fuel int, self string) *Term {
 		}
 		if t := g.ctxAxiom(ctx, A, U, self); t != nil {
 			return t
+		}
+		if fuel > 0 && A.M.Contract() && g.splits < g.O.MaxSplit && g.coin(g.O.Capture) {
+			return g.captureServer(ctx, A, fuel, self)
 		}
 		if t := g.clientAxiom(ctx, A, fuel, self); t != nil {
 			return t
@@ -1033,4 +1040,37 @@ func (g *G) constructor(A, U *Ty, fuel int, a string) (func(*Term) *Term, string
 		}, a, true
 	}
 	return nil, "", false
+}
+
+// captureServer: the whole context is handed to a server of type &{go : 1}; the client
+// splits the server and uses both halves, so the server is duplicated while it holds every
+// captured channel (each copy consumes its own copies of them).
+func (g *G) captureServer(ctx []Var, A *Ty, fuel int, self string) *Term {
+	m := A.M
+	g.splits++
+	S := With(m, Branch{L: "go", T: Unit(m)})
+	g.nFn++
+	f := &Func{Name: fmt.Sprintf("srvc%d", g.nFn), Ret: S}
+	for _, v := range ctx {
+		f.Params = append(f.Params, Var{"", g.vary(v.T)})
+	}
+	g.P.Funcs = append(g.P.Funcs, f)
+	g.scope(func() {
+		for i := range f.Params {
+			f.Params[i].N = g.fresh("q")
+		}
+		k := g.fresh("z")
+		f.Body = &Term{Op: "case", X: "self", Brs: []CaseBr{{Lbl: "go", Var: k, Body: g.gen(cp(f.Params), Unit(m), fuel-1, k)}}}
+	})
+	var args []string
+	for _, v := range ctx {
+		args = append(args, v.N)
+	}
+	srv, s1, s2, r1, r2 := g.fresh("g"), g.fresh("g"), g.fresh("g"), g.fresh("r"), g.fresh("r")
+	g.feat("capture-server")
+	use := func(s, r string, c *Term) *Term {
+		return &Term{Op: "new", Y: r, Ann: Unit(m), Body: &Term{Op: "sel", X: s, Lbl: "go", Y: "self"}, Cont: &Term{Op: "wait", X: r, Cont: c}}
+	}
+	rest := g.gen(nil, A, fuel-1, self)
+	return &Term{Op: "new", Y: srv, Body: &Term{Op: "call", Fn: f.Name, Args: args}, Cont: &Term{Op: "split", X: srv, Y: s1, Z: s2, Cont: use(s1, r1, use(s2, r2, rest))}}
 }
